@@ -424,6 +424,17 @@ class MachineInterp(flow.Interp):
                         self.viol('C11.b', 'previousTransition() is not the transition that was applied (field %s)' % '.'.join(f), where, st,
                                   {'previous': self.describe(st, st.get(PREV + f)), 'accepted': self.describe(st, st.get(cur + f))})
                         break
+        if cur is None and self.mode == 'guarded' and facts.cfg_has(self.F.cfg, 'H') and self.entry_name in ('update', 'react'):
+            # a step that did not even look at requests applied no transition: the history must say so
+            pd0 = st.get(PREV + ('destination',))
+            if st.cconst(pd0) != 255:
+                self.viol('C11.b', 'a step that applied no transition leaves an earlier transition in previousTransition()', where, st,
+                          {'previous.destination': self.describe(st, pd0)})
+        if expect == 'inactive' and inact_ok:
+            rq = st.get(REQUEST + ('destination',))
+            if st.cconst(rq) != 255:
+                self.viol('C01.a', '%s deactivates the machine but leaves a request outstanding (the next activation would consume it)' % self.entry_name, where, st,
+                          {'request.destination': self.describe(st, rq)})
         if self.mode == 'load':
             # loading into an active machine is observable as exactly one of: exit+enter (another state), reenter (the same state),
             # initial enter -- never as nothing at all; and whatever the loader had queued is gone afterwards
